@@ -757,7 +757,10 @@ fn collapse_root_stack_to<NumericTypes: EvalexprNumericTypes>(
     loop {
         if let Some(mut potential_higher_root) = root_stack.pop() {
             // TODO I'm not sure about this >, as I have no example for different sequence operators with the same precedence
-            if potential_higher_root.operator().precedence() > collapse_goal.operator().precedence()
+            // Only sequences are collapsed, the root node of the current brace level stays on the stack
+            if potential_higher_root.operator().is_sequence()
+                && potential_higher_root.operator().precedence()
+                    > collapse_goal.operator().precedence()
             {
                 potential_higher_root.children.push(root);
                 root = potential_higher_root;
